@@ -29,7 +29,14 @@ RULE = ("part 1 (complete comparison of constants): every fixed catalog gate (h 
         "fresh object does not show is shrunk over (earlier conversions, circuit). Catalog histories: every gate item "
         "is built, what was built is modified in place (inverse h/v, parameters, added component, through circuit, "
         "leaves and processor), and built again: the new build must have the model's unitary and share no component "
-        "object with another build. Every exact request is cost-bounded before it is "
+        "object with another build. Source languages: cQASM programs written with the language's addressing forms (ranges, "
+        "lists, single-gate-multiple-qubit statements for one- and two-qubit gates with equal, single and mismatched "
+        "operand lengths, several registers and single-qubit variables, v3/v1/unsupported/missing version headers, "
+        "`qubits n`, comments, prep/measure lines, parameter expressions), Qiskit circuits using multi-target calls, "
+        "barriers, measure/reset, two registers and gates outside the supported set, myQLM controlled/three-qubit gates, "
+        "measure, reset; the oracle is the language semantics (pairwise application; qiskit's Operator), the verdict "
+        "'a refusal, or a processor on the same qubits proportional to the reference' — a silently different circuit "
+        "fails; refusals are counted by exception type. Every exact request is cost-bounded before it is "
         "sent (4^q n! n per request, total budget, runner timeout, wall-clock deadline); circuits beyond the bound go "
         "through the implementation's SLOS amplitudes instead (conv.route=slos) or are skipped (conv.route=skipped).")
 TRUSTED = ["model: coq/Model/Catalog.v, CatalogX.v, coq/Lib/Quad.v (hand-written component lists; tied by the complete "
@@ -241,7 +248,19 @@ def src_unitary(nq, gates):
     U = np.eye(N, dtype=complex)
     for name, qs, par in gates:
         G = np.zeros((N, N), dtype=complex)
-        if len(qs) == 1:
+        if name == "mat":       # k-qubit matrix par on the qubits qs (qs[0] = most significant bit of the matrix index)
+            k = len(qs)
+            M = np.array(par, dtype=complex)
+            sh = [nq - 1 - q for q in qs]
+            for b in range(N):
+                v = sum((((b >> sh[i]) & 1) << (k - 1 - i)) for i in range(k))
+                rest = b
+                for x in sh:
+                    rest &= ~(1 << x)
+                for v2 in range(1 << k):
+                    b2 = rest | sum((((v2 >> (k - 1 - i)) & 1) << sh[i]) for i in range(k))
+                    G[b2, b] += M[v2, v]
+        elif len(qs) == 1:
             g = gate_matrix(name, par)
             sh = nq - 1 - qs[0]
             for b in range(N):
@@ -476,18 +495,24 @@ def slos_feasible(m, n):
 
 
 def evaluate(ctx, fw, nq, gates, ups, leak_budget=2e5, budget=None, conv=None):
-    """-> (signature or None, details). Runs the real converter; the logical action goes through the exact model when
+    """-> (signature or None, details). Runs the real converter, then [judge]: the logical action goes through the exact model when
     the request fits the budget (bounded BEFORE it is sent, from qubits and photons), otherwise through the cheaper
     per-instance route: model for the heralds/post-selection of logical states, the implementation's own SLOS
     amplitudes for the matrix (counted in the histogram), or is skipped when even that is too large."""
-    import subprocess
-    import numpy as np
-    budget = budget or SHRINK_BUDGET
     src = build_source(fw, nq, gates)
     try:
         p = convert(fw, src, ups, conv)
     except Exception as e:
         return f"converter-exception-{fw}-{type(e).__name__}", {"error": repr(e)[:300]}
+    return judge(ctx, fw, nq, gates, ups, p, leak_budget, budget)
+
+
+def judge(ctx, fw, nq, gates, ups, p, leak_budget=2e5, budget=None, Us=None):
+    """verdict on a converted processor p: every logical state passes heralds and post-selection and the logical
+    amplitude matrix is proportional to the reference unitary (Us, default: the unitary of the gate list)."""
+    import subprocess
+    import numpy as np
+    budget = budget or SHRINK_BUDGET
     m = p.circuit_size
     her = {int(k): int(v) for k, v in p.heralds.items()}
     pst_s = str(p.post_select_fn) if p.post_select_fn is not None else ""
@@ -518,7 +543,8 @@ def evaluate(ctx, fw, nq, gates, ups, leak_budget=2e5, budget=None, conv=None):
         else:
             info["route"] = "skipped"
     ctx.count("conv.route=" + info["route"])
-    Us = src_unitary(nq, canon_gates(gates)).tolist()
+    if Us is None:
+        Us = src_unitary(nq, canon_gates(gates)).tolist()
     has_far_cx = any(nm == "cx" and (qs[1] != qs[0] + 1) for nm, qs, _ in gates)
     if not all(passes):
         info["logical_states_rejected"] = [b for b, ok in enumerate(passes) if not ok]
@@ -725,6 +751,405 @@ def catalog_history_stream(ctx, expected):
             if any(x is y for x in modified for y in circuit_leaves(c2)):
                 ctx.fail("catalog-builds-share-a-component", "a new build hands out a component object of an earlier build", cs)
                 break
+    return n
+
+
+# ------------------------------------------------------------------ the front-ends' input languages (edges and error side)
+CQ_NAMES = {"h": "H", "x": "X", "y": "Y", "z": "Z", "s": "S", "sdg": "Sdag", "t": "T", "tdg": "Tdag", "x90": "X90",
+            "mx90": "mX90", "y90": "Y90", "my90": "mY90", "rx": "Rx", "ry": "Ry", "rz": "Rz", "cx": "CNOT", "cz": "CZ"}
+CQ_EXPRS = [("pi/2", math.pi / 2), ("-pi/4", -math.pi / 4), ("2*0.35", 0.7), ("pi", math.pi), ("1", 1.0)]
+CLEAN_REFUSALS = {"cqasm": {"ConversionUnsupportedFeatureError", "ConversionSyntaxError", "ConversionBadVersionError",
+                            "UnknownGateError", "NotImplementedError"},
+                  "qiskit": {"AssertionError", "NotImplementedError", "UnknownGateError"},
+                  "myqlm": {"AssertionError", "NotImplementedError", "UnknownGateError"}}
+
+
+def cq_expand(stmt):
+    """language semantics of one statement: one-qubit gates apply to every addressed qubit; two-qubit gates apply
+    pairwise to operand lists of equal length (single-gate-multiple-qubit notation), a single qubit against a list is
+    broadcast; anything else (different lengths, a qubit paired with itself) has no meaning -> None (must be refused)"""
+    g, ops, par = stmt["gate"], stmt["ops"], stmt["par"]
+    val = par[1] if par else None
+    if len(ops) == 1:
+        return [(g, [i], val) for i in ops[0]]
+    a, b = ops
+    if len(a) == len(b):
+        pairs = list(zip(a, b))
+    elif len(a) == 1:
+        pairs = [(a[0], t) for t in b]
+    elif len(b) == 1:
+        pairs = [(c, b[0]) for c in a]
+    else:
+        return None
+    if any(c == t for c, t in pairs):
+        return None
+    return [(g, [c, t], val) for c, t in pairs]
+
+
+def cq_operand(regs, idxs, form):
+    """render global qubit indices (all in one register) as name, name[i], name[a:b] or name[i,j,...]"""
+    off = 0
+    for name, size in regs:
+        k = 1 if size is None else size
+        if off <= idxs[0] < off + k:
+            loc = [i - off for i in idxs]
+            if size is None:
+                return name
+            if form == "range" and len(loc) > 1:
+                return f"{name}[{loc[0]}:{loc[-1]}]"
+            return f"{name}[{','.join(str(i) for i in loc)}]"
+        off += k
+    raise ValueError(idxs)
+
+
+def cq_render(prog):
+    regs, v = prog["regs"], prog["version"]
+    lines = []
+    if prog.get("comments") and v != "1.0":
+        lines.append("// generated program")
+    if v is not None:
+        lines.append(f"version {v}")
+    if v == "1.0":
+        lines.append("# a comment")
+        lines.append(f"qubits {sum(1 if sz is None else sz for _, sz in regs)}")
+        if prog.get("comments"):
+            lines.append("prep_z q[0]")
+    else:
+        if prog.get("comments"):
+            lines.append("/* block\n   comment */")
+        for name, size in regs:
+            lines.append(f"qubit {name}" if size is None else f"qubit[{size}] {name}" + ("  // register" if prog.get("comments") else ""))
+    for st in prog["stmts"]:
+        ops = [cq_operand(regs, o, f) for o, f in zip(st["ops"], st["forms"])]
+        name = CQ_NAMES[st["gate"]]
+        if v == "1.0":
+            sep = ", " if prog.get("comments") else ","
+            lines.append(f"{name} {sep.join(ops)}" + (f", {st['par'][1]!r}" if st["par"] else ""))
+        else:
+            lines.append((f"{name}({st['par'][0]}) " if st["par"] else f"{name} ") + ", ".join(ops))
+    if v == "1.0" and prog.get("comments"):
+        lines.append("measure q[0]")
+    return "\n".join(lines) + "\n"
+
+
+def cq_form(st):
+    k = [len(o) for o in st["ops"]]
+    if len(k) == 1:
+        base = "1q-" + (st["forms"][0] if k[0] > 1 else "single")
+    elif k == [1, 1]:
+        base = "2q-single"
+    elif k[0] == k[1]:
+        base = "2q-pairwise-" + st["forms"][0]
+    elif 1 in k:
+        base = "2q-broadcast"
+    else:
+        base = "2q-length-mismatch"
+    return base + ("-expression" if st["par"] and not st["par"][0].replace(".", "").replace("-", "").isdigit() else "")
+
+
+def rand_cq_program(rng):
+    r = rng.below(20)
+    version = "1.0" if r < 4 else "2.0" if r == 4 else None if r == 5 else rng.choice(["3.0", "3"])
+    nq = rng.rint(2, 4)
+    if version in ("3.0", "3") and rng.chance(1, 3):       # several registers, single-qubit variables
+        regs, left, names = [], nq, iter("abcd")
+        while left:
+            k = rng.rint(1, left)
+            regs.append((next(names), None if (k == 1 and rng.chance(1, 2)) else k))
+            left -= k
+    else:
+        regs = [("q", nq)]
+    bounds, off = [], 0
+    for _, sz in regs:
+        k = 1 if sz is None else sz
+        bounds.append((off, k))
+        off += k
+
+    def operand(maxlen, exact=None):
+        o, k = rng.choice(bounds)
+        ln = exact if exact is not None else rng.rint(1, min(maxlen, k))
+        if ln > k:
+            return None, None
+        if ln > 1 and rng.chance(1, 2):
+            a = rng.rint(0, k - ln)
+            return [o + a + i for i in range(ln)], "range"
+        return [o + i for i in rng.shuffle(list(range(k)))[:ln]], ("list" if ln > 1 else "single")
+    stmts, n2 = [], 0
+    for _ in range(rng.rint(1, 5)):
+        two = n2 < 3 and rng.chance(2, 5)
+        if not two:
+            g = rng.choice(ONE_Q["cqasm"])
+            par = None
+            if g in PARAM:
+                par = rng.choice(CQ_EXPRS) if (version != "1.0" and rng.chance(1, 2)) else (None, rng.rint(-3000, 3000) / 1000.0)
+                par = (repr(par[1]), par[1]) if par[0] is None else par
+            o, f = operand(3 if version != "1.0" or rng.chance(1, 4) else 1)
+            stmts.append({"gate": g, "ops": [o], "forms": [f], "par": par})
+            continue
+        kind = rng.below(10) if version != "1.0" else rng.below(5)      # 0-4 single pair, 5-7 pairwise lists, 8 broadcast, 9 mismatch
+        la, lb = (1, 1) if kind < 5 else (2, 2) if kind < 8 else rng.choice([(1, 2), (2, 1), (1, 3)]) if kind == 8 else rng.choice([(2, 3), (3, 2)])
+        for _try in range(20):
+            a, fa = operand(3, la)
+            b, fb = operand(3, lb)
+            if a is None or b is None:
+                continue
+            st = {"gate": rng.choice(["cx", "cx", "cz"]), "ops": [a, b], "forms": [fa, fb], "par": None}
+            exp = cq_expand(st)
+            if (exp is not None or la != lb or rng.chance(1, 8)) and n2 + max(la, lb) <= 3:
+                stmts.append(st)
+                n2 += max(la, lb)
+                break
+    if not stmts:
+        stmts.append({"gate": "h", "ops": [[0]], "forms": ["single"], "par": None})
+    return {"version": version, "regs": regs, "stmts": stmts, "comments": rng.chance(1, 2), "nq": nq}
+
+
+def cq_reference(prog):
+    """gate list of the language semantics, or None when the program has no meaning / an unsupported header"""
+    if prog["version"] not in ("3.0", "3", "1.0"):
+        return None
+    out = []
+    for st in prog["stmts"]:
+        e = cq_expand(st)
+        if e is None:
+            return None
+        out += e
+    return out
+
+
+def qk_build(desc, nq, split):
+    """Qiskit circuit from a description that uses the API's own addressing forms; -> (circuit, is_unitary)"""
+    from qiskit import QuantumCircuit, QuantumRegister, ClassicalRegister
+    if split:
+        qc = QuantumCircuit(QuantumRegister(split, "a"), QuantumRegister(nq - split, "b"), ClassicalRegister(nq, "c"))
+    else:
+        qc = QuantumCircuit(nq, nq)
+    unitary = True
+    for op in desc:
+        k = op[0]
+        if k == "gate":
+            _, name, qs, par = op
+            getattr(qc, name)(*((list(par) if isinstance(par, list) else [par] if par is not None else []) + qs))
+        elif k == "multi1":                 # one call, several target qubits
+            getattr(qc, op[1])(op[2])
+        elif k == "multi2":                 # one call, lists of controls and targets (pairwise)
+            getattr(qc, op[1])(op[2], op[3])
+        elif k == "barrier":
+            qc.barrier()
+        elif k in ("measure", "reset"):
+            unitary = False
+            qc.measure(op[1], op[1]) if k == "measure" else qc.reset(op[1])
+        elif k in ("ccx", "ch", "iswap", "cy"):
+            getattr(qc, k)(*op[1:])
+        elif k in ("crz", "cp"):
+            getattr(qc, k)(op[1], *op[2:])
+    return qc, unitary
+
+
+def rand_qk_desc(rng, nq):
+    desc = []
+    special = rng.choice(["multi1", "multi2", "barrier", "measure", "reset", "ccx", "ch", "iswap", "cy", "crz", "cp", "registers"])
+    for _ in range(rng.rint(1, 3)):
+        name = rng.choice(["h", "x", "s", "t", "rx", "ry"])
+        desc.append(("gate", name, [rng.below(nq)], rng.rint(-3000, 3000) / 1000.0 if name in PARAM else None))
+    qs = rng.shuffle(list(range(nq)))
+    if special == "multi1":
+        desc.append(("multi1", rng.choice(["h", "x", "t", "sdg"]), sorted(qs[:rng.rint(2, nq)])))
+    elif special == "multi2" and nq >= 3:
+        k = 2 if nq >= 4 and rng.chance(1, 2) else 1
+        desc.append(("multi2", rng.choice(["cx", "cz"]), qs[:k], qs[k:2 * k]) if k == 2 else
+                    ("multi2", rng.choice(["cx", "cz"]), [qs[0]], qs[1:3]))
+    elif special == "barrier":
+        desc.insert(1, ("barrier",))
+    elif special in ("measure", "reset"):
+        desc.insert(rng.below(len(desc) + 1), (special, rng.below(nq)))
+    elif special == "ccx" and nq >= 3:
+        desc.append(("ccx", qs[0], qs[1], qs[2]))
+    elif special in ("ch", "iswap", "cy"):
+        desc.append((special, qs[0], qs[1]))
+    elif special in ("crz", "cp"):
+        desc.append((special, rng.rint(-3000, 3000) / 1000.0, qs[0], qs[1]))
+    desc.append(("gate", "h", [qs[-1]], None))
+    split = rng.rint(1, nq - 1) if special == "registers" else 0
+    if split:       # at least one gate on each register
+        desc += [("gate", "y", [0], None), ("gate", "h", [nq - 1], None)]
+    return desc, split, special
+
+
+def qlm_build(desc, nq):
+    import numpy as np
+    from qat.lang.AQASM import Program, H, X, S, T, RX, RY, CNOT, CCNOT, ISWAP, RZ
+    tab = {"h": H, "x": X, "s": S, "t": T}
+    pr = Program()
+    q = pr.qalloc(nq)
+    c = pr.calloc(nq)
+    for op in desc:
+        k = op[0]
+        if k == "gate":
+            _, name, qs, par = op
+            pr.apply({"rx": RX, "ry": RY}[name](par) if name in ("rx", "ry") else tab[name], *[q[i] for i in qs])
+        elif k == "ccnot":
+            pr.apply(CCNOT, q[op[1]], q[op[2]], q[op[3]])
+        elif k == "ctrl-h":
+            pr.apply(H.ctrl(), q[op[1]], q[op[2]])
+        elif k == "ctrl-rz":
+            pr.apply(RZ(op[1]).ctrl(), q[op[2]], q[op[3]])
+        elif k == "iswap":
+            pr.apply(ISWAP, q[op[1]], q[op[2]])
+        elif k == "measure":
+            pr.measure(q[op[1]], c[op[1]])
+        elif k == "reset":
+            pr.reset(q[op[1]])
+    return pr.to_circ()
+
+
+def qlm_reference(desc):
+    r = 1 / math.sqrt(2)
+    ctrl = lambda g: [[1, 0, 0, 0], [0, 1, 0, 0], [0, 0, g[0][0], g[0][1]], [0, 0, g[1][0], g[1][1]]]
+    out = []
+    for op in desc:
+        k = op[0]
+        if k == "gate":
+            out.append((op[1], op[2], op[3]))
+        elif k == "ccnot":
+            M = [[1 if (i == j and i < 6) or {i, j} == {6, 7} else 0 for j in range(8)] for i in range(8)]
+            out.append(("mat", [op[1], op[2], op[3]], M))
+        elif k == "ctrl-h":
+            out.append(("mat", [op[1], op[2]], ctrl([[r, r], [r, -r]])))
+        elif k == "ctrl-rz":
+            out.append(("mat", [op[2], op[3]], ctrl(gate_matrix("rz", op[1]))))
+        elif k == "iswap":
+            out.append(("mat", [op[1], op[2]], [[1, 0, 0, 0], [0, 0, 1j, 0], [0, 1j, 0, 0], [0, 0, 0, 1]]))
+        else:
+            return None             # measure / reset: not a unitary circuit, must be refused
+    return out
+
+
+def rand_qlm_desc(rng, nq):
+    desc = [("gate", rng.choice(["h", "x", "s", "t"]), [rng.below(nq)], None) for _ in range(rng.rint(1, 3))]
+    qs = rng.shuffle(list(range(nq)))
+    special = rng.choice(["ccnot", "ctrl-h", "ctrl-rz", "iswap", "measure", "reset"])
+    if special == "ccnot" and nq >= 3:
+        desc.append(("ccnot", qs[0], qs[1], qs[2]))
+    elif special in ("ctrl-h", "iswap"):
+        desc.append((special, qs[0], qs[1]))
+    elif special == "ctrl-rz":
+        desc.append((special, rng.rint(-3000, 3000) / 1000.0, qs[0], qs[1]))
+    elif special in ("measure", "reset"):
+        desc.insert(rng.below(len(desc) + 1), (special, rng.below(nq)))
+    desc.append(("gate", "h", [qs[-1]], None))
+    return desc, special
+
+
+def language_verdict(ctx, fw, source, nq, ref_gates, Us, ups, budget, form):
+    """either a clean refusal or a processor on nq qubits proportional to the reference (ref_gates or Us); both None = the
+    input has no meaning and must be refused.  -> (signature or None, info)"""
+    try:
+        p = convert(fw, source, ups)
+    except Exception as e:
+        kind = type(e).__name__
+        clean = kind in CLEAN_REFUSALS[fw]
+        ctx.count(f"lang.{fw}.refused." + ("clean" if clean else "other:" + kind))
+        return None, {"refused": kind, "message": str(e)[:120]}
+    ctx.count(f"lang.{fw}.converted")
+    info = {"m": p.circuit_size, "heralds": {int(k): int(v) for k, v in p.heralds.items()}}
+    if ref_gates is None and Us is None:
+        return f"converter-accepts-meaningless-source-{fw}-{form}", info
+    if p.circuit_size - len(p.heralds) != 2 * nq:
+        info["qubits_of_processor"] = (p.circuit_size - len(p.heralds)) / 2
+        return f"converter-source-language-{fw}-{form}-qubit-count", info
+    sig, info2 = judge(ctx, fw, nq, ref_gates or [], ups, p, 0, budget, Us=Us)
+    info.update(info2)
+    return (f"converter-source-language-{fw}-{form}" if sig else None), info
+
+
+def language_stream(ctx, avail, budget):
+    import numpy as np
+    rng = ctx.rng
+    n = 0
+    # ---- cQASM programs written with the language's addressing forms
+    if "cqasm" in avail:
+        progs = [rand_cq_program(rng) for _ in range(ctx.n(45, 300))]
+        # every addressing form at least once per run
+        q4 = [("q", 4)]
+        st = lambda g, ops, forms, par=None: {"gate": g, "ops": ops, "forms": forms, "par": par}
+        for stmts in ([st("h", [[0, 1, 2]], ["range"])], [st("x", [[0, 2]], ["list"])],
+                      [st("cx", [[0, 1], [2, 3]], ["range", "range"])], [st("cz", [[0, 3], [2, 1]], ["list", "list"])],
+                      [st("cx", [[3, 1], [0, 2]], ["list", "list"])], [st("cx", [[0], [1, 2]], ["single", "range"])],
+                      [st("cx", [[1, 2], [0]], ["range", "single"])], [st("cx", [[0, 1], [1, 2, 3]], ["range", "range"])],
+                      [st("rx", [[0, 1]], ["range"], ("pi/2", math.pi / 2))]):
+            for v in ("3.0", "1.0"):
+                progs.append({"version": v, "regs": q4, "stmts": [st("h", [[0]], ["single"])] + stmts + [st("h", [[2]], ["single"])],
+                              "comments": False, "nq": 4})
+        for prog in progs:
+            ups = rng.chance(2, 3)
+            ref = cq_reference(prog)
+
+            def verdict(pg):
+                forms = sorted({cq_form(x) for x in pg["stmts"]} - {"1q-single", "2q-single"}) or ["plain"]
+                form = "+".join(forms) if pg["version"] in ("3.0", "3", "1.0") else "header"
+                if pg["version"] == "1.0":      # the v1 front-end is a hand-written line parser: name the token shape
+                    lists = any(f == "list" and len(o) > 1 for x in pg["stmts"] for o, f in zip(x["ops"], x["forms"]))
+                    form = "v1-list-index" if lists else "v1-" + form
+                return language_verdict(ctx, "cqasm", cq_render(pg), pg["nq"], cq_reference(pg), None, ups, budget, form)
+            sig, info = verdict(prog)
+            n += 1
+            case = {"framework": "cqasm", "program": cq_render(prog), "use_postselection": ups,
+                    "reference": "must be refused" if ref is None else [[g, q] for g, q, _ in ref], **{k: str(v) for k, v in info.items()}}
+            ctx.case(["lang-cqasm", cq_render(prog), ups], True, case)
+            for x in prog["stmts"]:
+                ctx.count("lang.cqasm.form." + cq_form(x))
+            ctx.count("lang.cqasm.version=" + str(prog["version"]))
+            if sig:
+                pg, changed = dict(prog), True
+                while changed and len(pg["stmts"]) > 1:
+                    changed = False
+                    for i in range(len(pg["stmts"])):
+                        p2 = dict(pg, stmts=pg["stmts"][:i] + pg["stmts"][i + 1:])
+                        s2, _ = verdict(p2)
+                        if s2 is not None and s2.split("-")[1] == sig.split("-")[1]:
+                            pg, changed = p2, True
+                            break
+                sig2, info2 = verdict(pg)
+                ref2 = cq_reference(pg)
+                ctx.fail(sig2 or sig, "a cQASM program is converted to a processor that is not the program's circuit",
+                         {"framework": "cqasm", "program": cq_render(pg), "use_postselection": ups,
+                          "reference": "must be refused" if ref2 is None else [[g, q] for g, q, _ in ref2]},
+                         expected="a refusal (Conversion*Error) or a processor proportional to the reference unitary",
+                         observed=str({k: info2.get(k) for k in ("m", "heralds", "deviation", "factor", "qubits_of_processor")}))
+    # ---- Qiskit: the API's own forms (multi-target calls, barriers, measure/reset, registers, gates outside the supported set)
+    if "qiskit" in avail:
+        from qiskit.quantum_info import Operator
+        for _ in range(ctx.n(24, 150)):
+            nq = rng.rint(2, 4)
+            desc, split, special = rand_qk_desc(rng, nq)
+            ups = rng.chance(1, 2)
+            qc, unitary = qk_build(desc, nq, split)
+            Us = np.array(Operator(qc.reverse_bits()).data).tolist() if unitary else None
+            sig, info = language_verdict(ctx, "qiskit", qc, nq, None, Us, ups, budget, special)
+            n += 1
+            case = {"framework": "qiskit", "description": [list(map(str, d)) for d in desc], "registers": [split, nq - split] if split else [nq],
+                    "use_postselection": ups, "reference": "qiskit Operator" if unitary else "must be refused", **{k: str(v) for k, v in info.items()}}
+            ctx.case(["lang-qiskit", str(desc), split, ups], True, case)
+            ctx.count("lang.qiskit.form." + special)
+            if sig:
+                ctx.fail(sig, "a Qiskit circuit is converted to a processor that is not the circuit", case,
+                         expected="a refusal or a processor proportional to qiskit's Operator of the circuit", observed=str(info))
+    # ---- myQLM: controlled / three-qubit gates, measure, reset
+    if "myqlm" in avail:
+        for _ in range(ctx.n(12, 80)):
+            nq = rng.rint(2, 3)
+            desc, special = rand_qlm_desc(rng, nq)
+            ups = rng.chance(1, 2)
+            sig, info = language_verdict(ctx, "myqlm", qlm_build(desc, nq), nq, qlm_reference(desc), None, ups, budget, special)
+            n += 1
+            case = {"framework": "myqlm", "description": [list(map(str, d)) for d in desc], "use_postselection": ups,
+                    **{k: str(v) for k, v in info.items()}}
+            ctx.case(["lang-myqlm", str(desc), ups], True, case)
+            ctx.count("lang.myqlm.form." + special)
+            if sig:
+                ctx.fail(sig, "a myQLM circuit is converted to a processor that is not the circuit", case,
+                         expected="a refusal or a processor proportional to the circuit's unitary", observed=str(info))
     return n
 
 
@@ -980,6 +1405,11 @@ def run(ctx):
     ctx.log(f"{len(cases)} converted circuits validated (exact-model cost spent {budget.spent:.3g} of {budget.total:.3g})")
     ctx.hist["conv.exact-cost-spent"] = int(budget.spent)
     ctx.hist["qiskit-operator-second-oracle"] = second_oracle
+
+    # ---------------------------------------------------------------- 2b. the front-ends' input languages
+    lang_budget = Budget(3e6, 1.2e7, 60, time.time() + 40) if ctx.quick() else Budget(2.5e7, 1e8, 600, time.time() + 900)
+    ctx.streams["source languages: addressing forms, headers, instructions to refuse"] = language_stream(ctx, avail, lang_budget)
+    ctx.log("source-language stream done")
 
     # ---------------------------------------------------------------- vm_compute cross-check of the extraction
     small = [(2000, 0), (2000, 8), (2002, [0, QI(Fraction(3, 5)), QI(Fraction(4, 5))]), (2003, [2, QI(Fraction(1, 2), Fraction(1, 3))])]
